@@ -133,6 +133,7 @@ class SchemaInfo:
         self.pkg: str = pkg
         self.instances: List[dict] = []
         self.objs: List[Any] = []
+        self.unserialisable: List[dict] = []  # parse fine, but bytes(obj) raises (C12 defect on the pinned tree)
 
     @property
     def key(self):
@@ -245,7 +246,11 @@ def _add_info(name, version, cls, parents, auxiliary, origin, pkg, instances):
     for d in instances:
         try:
             obj = cls.parse_obj(_copy.deepcopy(d))
-            raw = bytes(obj)
+            try:
+                raw = bytes(obj)
+            except Exception:  # noqa
+                info.unserialisable.append(d)
+                raise
             back = cls.parse_raw(raw)
             if back != obj:
                 raise ValueError("instance does not survive its own serialisation")
@@ -517,6 +522,14 @@ def _text(v) -> str:
     return canon(canon_val(v))
 
 
+def empty_scan() -> dict:
+    return {
+        "nodes": {"/": "g"}, "meta_dirs": [], "objects": [], "links": [], "link_groups": {}, "schema_groups": {},
+        "packages": {}, "has": {k: False for k in ("toc", "links", "schemas", "packages", "version", "uuid")},
+        "version": None, "uuid": None, "malformed": [], "stray": [], "stray_nodes": {},
+    }  # fmt: skip
+
+
 def scan_toc(raw) -> dict:
     """Scan the RAW tree of a container (h5py.File or IH5Record, not the wrappers).
 
@@ -533,11 +546,7 @@ def scan_toc(raw) -> dict:
       malformed    [str]  things inside metador structures that do not fit the layout
       stray        [path] other metador_* names outside the known layout
     """
-    S: Dict[str, Any] = {
-        "nodes": {"/": "g"}, "meta_dirs": [], "objects": [], "links": [], "link_groups": {}, "schema_groups": {},
-        "packages": {}, "has": {k: False for k in ("toc", "links", "schemas", "packages", "version", "uuid")},
-        "version": None, "uuid": None, "malformed": [], "stray": [],
-    }  # fmt: skip
+    S: Dict[str, Any] = empty_scan()
 
     def scan_meta_dir(grp, path, owner, owner_kind):
         if not _is_group(grp):
@@ -642,7 +651,14 @@ def scan_toc(raw) -> dict:
                 else:
                     scan_meta_dir(child, cpath, f"{gpath}/{k[len(META_PREF):]}", "d")
             elif k.startswith(RES_PREF):
+                # reserved name outside the known layout (C08's business) -- but metadata objects below it are still
+                # metadata objects of the raw tree: descend
                 S["stray"].append(cpath)
+                if _is_group(child):
+                    S["stray_nodes"][cpath] = "g"
+                    walk(child, cpath)
+                else:
+                    S["stray_nodes"][cpath] = "d"
             else:
                 if _is_group(child):
                     S["nodes"][cpath] = "g"
@@ -651,6 +667,10 @@ def scan_toc(raw) -> dict:
                     S["nodes"][cpath] = "d"
 
     walk(raw, "")
+    if S["stray_nodes"]:
+        # nodes below a stray reserved-name group are not user-visible nodes
+        for pth in [q for q in S["nodes"] if any(q.startswith(sp + "/") for sp in S["stray_nodes"])]:
+            S["stray_nodes"][pth] = S["nodes"].pop(pth)
     return S
 
 
@@ -710,7 +730,7 @@ def toc_inv_raw(S) -> List[Tuple[str, str]]:
             if len(by_uuid_o[ln["uuid"]]) > 1:
                 V.append(("1:link-target-wrong", f"link {ln['path']} points to {ln['target']} which is no metadata object"))
     for md in S["meta_dirs"]:
-        k = S["nodes"].get(md["owner"])
+        k = S["nodes"].get(md["owner"]) or S.get("stray_nodes", {}).get(md["owner"])
         if k is None:
             V.append(("1:owner-missing", f"meta dir {md['path']} belongs to {md['owner']} which does not exist"))
         elif k != md["owner_kind"]:
@@ -1026,7 +1046,8 @@ def apply_cop(h: Handle, op, timeout: float = OP_TIMEOUT_S):
                 if opts.get("name") is not None:
                     kw["name"] = opts["name"]
                 dst = node_of(mc, op[2]) if opts.get("into") else op[2]
-                mc.copy(op[1], dst, **kw)
+                src = node_of(mc, op[1]) if opts.get("srcobj") else op[1]
+                mc.copy(src, dst, **kw)
             elif kind == "move":
                 mc.move(op[1], op[2])
             elif kind == "attach":
@@ -1034,13 +1055,17 @@ def apply_cop(h: Handle, op, timeout: float = OP_TIMEOUT_S):
                 opts = op[5] if len(op) > 5 and op[5] else {}
                 env = opts.get("env")
                 sver = resolve_attach_version(sname, ver, env)
-                if sver is not None and (sname, sver) in FAMILY and FAMILY[(sname, sver)].instances:
+                if opts.get("as") == "unserialisable" and sver is not None and FAMILY[(sname, sver)].unserialisable:
+                    val = _copy.deepcopy(FAMILY[(sname, sver)].unserialisable[idx % len(FAMILY[(sname, sver)].unserialisable)])
+                elif sver is not None and (sname, sver) in FAMILY and FAMILY[(sname, sver)].instances:
                     val = instance_of(sname, sver, idx, opts.get("as", "obj"))
                 else:
                     val = {"x": 1}
                 keyk = opts.get("key") or ("name" if ver is None else "tuple")
                 if keyk == "cls" and sver is not None:
                     key: Any = FAMILY[(sname, sver)].cls
+                elif keyk == "ref" and sver is not None:
+                    key = schemas.PluginRef(name=sname, version=sver)
                 elif ver is not None:
                     key = (sname, tuple(ver))
                 else:
@@ -1146,6 +1171,8 @@ class Model:
                 return "err"
             if sname in self.meta.get(path, {}):
                 return "ValueError"
+            if opts.get("as") == "unserialisable":
+                return "?"  # a defect of serialisation (C12), not of the container: outcome not predicted
             sver = resolve_attach_version(sname, ver, opts.get("env"))
             if sver is None:
                 return "KeyError"
@@ -1263,6 +1290,11 @@ def probe_ops(model: Model, kind: str, tier: str) -> List[list]:
     ops.append(["attach", tgt, "vt.bb", [9, 0, 0], 0])
     # attach to missing node
     ops.append(["attach", "/nope", "vt.bb", None, 0])
+    # instance that parses but cannot be serialised (exists only while the C12 defect is present): exception safety of _set_raw
+    for (n, v), info in sorted(FAMILY.items()):
+        if info.unserialisable and n not in model.meta.get(tgt, {}):
+            ops.append(["attach", tgt, n, None, 0, {"as": "unserialisable"}])
+            break
     # reserved names
     ops.append(["mkds", "/metador_x", 1])
     ops.append(["mkgrp", "/metador_meta_"])
@@ -1445,8 +1477,8 @@ def random_op(r, model: Model, kind: str, allow_self_copy=True) -> list:
             vv = list(v)
             if MULTIVER_OK and n == "vt.ver" and tuple(v) == (0, 1, 0):
                 opts["env"] = [[0, 1, 0]]
-            elif r.random() < 0.3:
-                opts["key"] = "cls"
+            elif r.random() < 0.45:
+                opts["key"] = r.choice(["cls", "ref"])
         return ["attach", p, n, vv, r.randrange(3), opts]
     if x < 0.56:
         cands = [(p, s) for p, d in model.meta.items() for s in d]
@@ -1460,6 +1492,8 @@ def random_op(r, model: Model, kind: str, allow_self_copy=True) -> list:
         src = r.choice(non_root)
         if r.random() < 0.5:
             opts = {"without_meta": r.random() < 0.4}
+            if r.random() < 0.25:
+                opts["srcobj"] = True
             if r.random() < 0.3:
                 dstg = r.choice(groups)
                 opts["into"] = True
@@ -1609,7 +1643,19 @@ class Explorer:
             new_model = model.clone()
             created = new_model.apply(op)
         hist = history + [op]
-        S = scan_toc(h.raw)
+        try:
+            S = scan_toc(h.raw)
+        except Exception as e:  # noqa  (e.g. container left closed by a failed reopen)
+            S = empty_scan()
+            S["error"] = f"{type(e).__name__}: {str(e)[:200]}"
+        if not S.get("error") and S["nodes"] != new_model.nodes:
+            # the shape of the user tree is judged by C08/C09, not here: adopt what is observed (e.g. an operation that
+            # raised after having had an effect) so that the model of what is attached WHERE stays meaningful
+            if new_model is model:
+                new_model = model.clone()
+            if len(self.rec.notes) < 40 and not any(n.startswith("tree differs") and json.dumps(op) in n for n in self.rec.notes):
+                self.rec.notes.append(f"tree differs from the reference prediction after {json.dumps(op)} -> {status} {exc}: observed nodes adopted (not judged here)")
+            new_model.nodes = dict(S["nodes"])
         st = Step(h=h, op=op, status=status, exc=exc, msg=msg, pred=pred, scan=S, model_before=model, model=new_model,
                   history=hist, kind=self.kind, created_by_copy=created, phase=phase)  # fmt: skip
         self.n_steps += 1
@@ -1694,7 +1740,7 @@ class Explorer:
                     break
                 m2, st = self.step(h, cur.model, applied, op, phase=label)
                 applied = st.history
-                if st.status == "hang" or op[0] == "reopen":
+                if st.status == "hang" or op[0] == "reopen" or st.scan.get("error"):
                     break
                 k2 = state_key(h, st.scan)
                 if k2 == cur.key:
@@ -1746,7 +1792,7 @@ class Explorer:
             for op in history:
                 model, st = self.step(h, model, applied, op, phase=phase)
                 applied = st.history
-                if st.status == "hang":
+                if st.status == "hang" or st.scan.get("error"):
                     break
             else:
                 if reopen_at_end and (not history or history[-1] != ["reopen"]):
@@ -1769,7 +1815,7 @@ class Explorer:
                     continue
                 model, st = self.step(h, model, applied, op, phase=phase)
                 applied = st.history
-                if st.status == "hang":
+                if st.status == "hang" or st.scan.get("error"):
                     break
             else:
                 model, st = self.step(h, model, applied, ["reopen"], phase=phase)
@@ -1817,6 +1863,10 @@ def sweep_histories(tier: str, kind: str = "h5", seed: int = 0) -> List[list]:
         res.append([["mkgrp", "/g"], ["mkds", "/g/e", 1], ["attach", "/g/e", "core.imagefile", None, 0], ["attach", "/g", "core.bib", None, 0],
                     ["attach", "/", "core.dir", None, 1], ["attach", "/g/e", "vt.auxkid", None, 0], ["copy", "/g", "/h", {}], ["commit"],
                     ["del", "/g"], ["reopen"], ["move", "/h/e", "/e"], ["detach", "/e", "core.imagefile"]])  # fmt: skip
+    # delete and re-create a group that carries metadata across IH5 patch boundaries
+    res.append([["mkgrp", "/g"], ["mkds", "/g/e", 2], ["attach", "/g/e", "vt.bb", None, 0], ["attach", "/g", "vt.cc", None, 0], ["commit"],
+                ["del", "/g"], ["mkgrp", "/g"], ["commit"], ["mkds", "/g/w", 4], ["attach", "/g", "vt.bb", None, 1], ["reopen"],
+                ["copy", "/g", "/h", {"srcobj": True}], ["detach", "/g", "vt.bb"]])  # fmt: skip
     if MULTIVER_OK:
         res.append([["mkds", "/d", 1], ["mkgrp", "/g"], ["mkds", "/g/e", 1],
                     ["attach", "/d", "vt.ver", [0, 1, 0], 0, {"env": [[0, 1, 0]]}],
@@ -1861,6 +1911,12 @@ class BaseChecker:
             self.hangs += 1
             if len(self.rec.notes) < 20:
                 self.rec.notes.append(f"operation did not terminate within {OP_TIMEOUT_S}s (not judged here): {st.kind} {json.dumps(st.history)[-200:]}")
+            return
+        if st.scan.get("error"):
+            # the container cannot even be read any more (e.g. reopen raised and left it closed)
+            self.report(st, f"{self.DRV}:container-unusable:after-{st.op[0]}:{st.exc}",
+                        f"after {st.op} -> {st.status} {st.exc} ({st.msg}) the container cannot be read any more: {st.scan['error']}",
+                        ["container/interface.py:MetadorContainerTOC.__init__"])  # fmt: skip
             return
         self.check(st)
 
@@ -1938,14 +1994,14 @@ def make_replay(checker_cls):
 
 
 PLAN = {
-    "quick": [("sweep", "h5", 6), ("sweep", "ih5", 7), ("toggle", "h5", 4), ("toggle", "ih5", 6), ("tree", "h5", 4), ("tree", "ih5", 5),
+    "quick": [("sweep", "h5", 5), ("sweep", "ih5", 6), ("toggle", "h5", 7), ("toggle", "ih5", 6), ("tree", "h5", 4), ("tree", "ih5", 4),
               ("general", "h5", 8), ("general", "ih5", 5), ("walk", "both", 4)],
     "thorough": [("sweep", "h5", 25), ("sweep", "ih5", 70), ("toggle", "h5", 50), ("toggle", "ih5", 80), ("tree", "h5", 40), ("tree", "ih5", 60),
                  ("general", "h5", 80), ("general", "ih5", 60), ("walk", "both", 70)],
 }  # fmt: skip
 
 
-def run_driver(checker_cls, tier: str, seed: int, rule: str, assumptions=(), trusted=(), extra_phase=None):
+def run_driver(checker_cls, tier: str, seed: int, rule: str, assumptions=(), trusted=(), extra_phase=None, plan=None):
     """Common run(): sweep over all schemas x instances, exhaustive bounded searches, seeded random walks."""
     from .base import Recorder, rng, tmpdir
 
@@ -1955,7 +2011,7 @@ def run_driver(checker_cls, tier: str, seed: int, rule: str, assumptions=(), tru
     for n in FAMILY_NOTES:
         rec.notes.append(n)
     chk = checker_cls(rec)
-    plan = PLAN["quick" if tier == "quick" else "thorough"]
+    plan = plan or PLAN["quick" if tier == "quick" else "thorough"]
     total = float(sum(w for _, _, w in plan))
     max_len = 4 if tier == "quick" else 6
     target = {"toggle": max_len, "tree": 3 if tier == "quick" else 4, "general": max_len}
